@@ -85,9 +85,7 @@ theorem replaced_one_principal {op : Op} {v : Nat} {news : List Op} (h : adapt o
     simp only [adapt] at h
     split at h
     · simp only [dft_19_20] at h
-      split at h
-      · injection h with h; subst h; simp [pmOps, Op.isAux]
-      · cases h
+      injection h with h; subst h; simp [pmOps, Op.isAux]
     · cases h
   | groupNorm n =>
     simp only [adapt] at h
@@ -121,11 +119,9 @@ theorem children_quiet {op : Op} {v : Nat} {news : List Op} (h : adapt op v = .r
     split at h
     · subst_vars
       simp only [dft_19_20] at h
-      split at h
-      · injection h with h; subst h
-        simp at ho
-        rcases ho with ho | ho <;> subst ho <;> simp [adapt]; omega
-      · cases h
+      injection h with h; subst h
+      simp at ho
+      rcases ho with ho | ho <;> subst ho <;> simp [adapt]; omega
     · cases h
   | groupNorm n =>
     simp only [adapt] at h
